@@ -4,3 +4,5 @@ pub mod sync;
 pub mod das;
 pub mod prune;
 pub mod hdr;
+pub mod shwap;
+pub mod fraud;
